@@ -207,6 +207,9 @@ def same(x, y, stats):
         stats["bit_differs"] += 1
         if fclose(fa, fb):
             return True
+        if _TOL.get("skip"):
+            stats["numerically_singular_not_compared"] = stats.get("numerically_singular_not_compared", 0) + 1
+            return True
         if _TOL["rt"] > 1e-9 and math.isfinite(fa) and math.isfinite(fb) and abs(fa - fb) <= _TOL["rt"] * max(abs(fa), abs(fb), _TOL["big"]):
             stats["within_cond_bound"] = stats.get("within_cond_bound", 0) + 1
             return True
@@ -567,7 +570,7 @@ def compare_case(ctx, ci, c, a, b, stats):
     # among tied candidates, a reciprocal computed once) moves the coefficients of an ill-conditioned collocation system
     # (timestamp-scaled knots, high order, least squares) by cond * epsilon.  Tolerance for a SOLVED spline: 1e-9 +
     # 1e-13 * cond of the system actually solved, relative to the largest coefficient; unsolved splines stay at 1e-9.
-    _TOL["rt"], _TOL["big"] = 1e-9, 0.0
+    _TOL["rt"], _TOL["big"], _TOL["skip"] = 1e-9, 0.0, False
     if c.get("solve"):
         try:
             sv = c["solve"]
@@ -576,7 +579,12 @@ def compare_case(ctx, ci, c, a, b, stats):
             if sv.get("lsq") or len(B) != n:      # allow_lsq solves the normal equations even for a square system
                 B = [[sum(B[r][i] * B[r][j] for r in range(len(B))) for j in range(n)] for i in range(n)]
             cnd = cond_inf(B)
-            _TOL["rt"] = min(1e-3, 1e-9 + 1e-13 * cnd) if cnd == cnd else 1e-3
+            # beyond cond ~ 1e12 the system is singular to working precision (cond * epsilon > 1e-4): both sides return
+            # rounding noise and the VALUES of this spline are not compared at all (outcome classes and shapes still are)
+            if not (cnd == cnd) or cnd > 1e12:
+                _TOL["skip"] = True
+                ctx.count("solved splines singular to working precision (cond > 1e12): values not compared")
+            _TOL["rt"] = min(0.1, 1e-9 + 1e-13 * cnd) if cnd == cnd else 0.1
             for it in da + db:
                 if it[0] == "csolve" and it[1][0] == "ok" and isinstance(it[1][1], list):
                     for e in it[1][1]:
